@@ -36,15 +36,17 @@ SAMPLER_KINDS = ("pg", "subtree", "dp", "prg", "burnin")
 
 
 @st.composite
-def st_program(draw, max_points=6, max_edits=30, samplers=True, forks=False, sampler_heavy=False):
+def st_program(draw, max_points=6, max_edits=30, samplers=True, forks=False, sampler_heavy=False, big=False):
     n = draw(st.integers(3, max_points + 1)) if sampler_heavy else draw(st.integers(1, max_points))
+    if big:
+        n = draw(st.integers(26, 32))  # clones holding more than two dozen data points
     ops = []
     sel = st.integers(0, 1 << 16)
     n_place = n
     edits = [e for e in EDIT_OPS if (samplers or e != "sampler") and (forks or e != "fork")]
     # placement phase interleaved with representation changes (as particles are copied / serialised between steps)
     for _ in range(n_place):
-        ops.append([draw(st.sampled_from(PLACE_OPS)), draw(sel), draw(sel), draw(sel)])
+        ops.append([draw(st.sampled_from(("add_root_clone", "add_root_clone", "add_root_clone", "new_clone") if big else PLACE_OPS)), draw(sel), draw(sel), draw(sel)])
         if draw(st.integers(0, 3)) == 0:
             ops.append([draw(st.sampled_from(["copy", "dict_roundtrip", "holder_roundtrip", "snapshot", "pickle_roundtrip"] + (["fork"] if forks else []))), draw(sel), 0, 0])
     m = draw(st.integers(0, max_edits))
@@ -57,9 +59,9 @@ def st_program(draw, max_points=6, max_edits=30, samplers=True, forks=False, sam
     return dict(
         n=n,
         ops=ops,
-        dims=draw(st.sampled_from([1, 2])),
+        dims=draw(st.sampled_from([2, 3])) if big else draw(st.sampled_from([1, 2])),
         G=draw(st.sampled_from([4, 3, 7, 12])),
-        values=draw(gen.st_values_spec(regimes=("moderate", "ties", "flat"), max_scale=2.0)),
+        values=draw(gen.st_values_spec(regimes=("moderate", "ties", "flat"), max_scale=0.5 if big else 2.0)),
         outlier_prior=draw(st.sampled_from([0.0, 0.1, 0.3])),
         alpha=draw(st.sampled_from([1.0, 0.4, 3.0])),
         proposal=draw(st.sampled_from(["fully", "semi", "bootstrap"])),
